@@ -1,6 +1,7 @@
 package rules
 
 import (
+	"sort"
 	"go/token"
 	"go/types"
 
@@ -69,20 +70,36 @@ func rangeCopiesAllBut(fn *ssa.Function, src ssa.Value, adder string, dst ssa.Va
 	isHeader := func(in ssa.Instruction) bool { return in == ssa.Instruction(next) }
 	isCall := func(in ssa.Instruction) bool { return in == call }
 	// find skip edges
-	skipBlocks := map[*ssa.BasicBlock]bool{}
+	// skipBlocks[b] = index of the successor taken when key == skipConst (either polarity of the test)
+	skipBlocks := map[*ssa.BasicBlock]int{}
 	for _, b := range fn.Blocks {
 		iff, ok := b.Instrs[len(b.Instrs)-1].(*ssa.If)
 		if !ok {
 			continue
 		}
-		bo, ok := iff.Cond.(*ssa.BinOp)
-		if !ok || bo.Op != token.EQL {
+		cond, eqSucc := iff.Cond, 0
+		for {
+			u, isU := cond.(*ssa.UnOp)
+			if !isU || u.Op != token.NOT {
+				break
+			}
+			cond, eqSucc = u.X, 1-eqSucc
+		}
+		bo, ok := cond.(*ssa.BinOp)
+		if !ok || (bo.Op != token.EQL && bo.Op != token.NEQ) {
 			continue
 		}
-		k, ok1 := ssax.Strip(bo.X).(*ssa.Extract)
-		s, ok2 := ConstString(bo.Y)
+		if bo.Op == token.NEQ {
+			eqSucc = 1 - eqSucc
+		}
+		kx, sy := bo.X, bo.Y
+		if _, isC := ConstString(kx); isC {
+			kx, sy = sy, kx
+		}
+		k, ok1 := ssax.Strip(kx).(*ssa.Extract)
+		s, ok2 := ConstString(sy)
 		if ok1 && ok2 && k.Tuple == ssa.Value(next) && k.Index == 1 && s == skipConst {
-			skipBlocks[b] = true
+			skipBlocks[b] = eqSucc + 1
 		}
 	}
 	// explore paths from body start avoiding the call; every arrival at the header must have used a skip edge
@@ -118,7 +135,7 @@ func rangeCopiesAllBut(fn *ssa.Function, src ssa.Value, adder string, dst ssa.Va
 		}
 		for i, succ := range s.b.Succs {
 			ns := st{succ, s.skipped}
-			if skipBlocks[s.b] && i == 0 {
+			if sb := skipBlocks[s.b]; sb != 0 && i == sb-1 {
 				ns.skipped = true
 			}
 			work = append(work, ns)
@@ -145,11 +162,40 @@ func C09(ctx *core.Ctx) {
 
 	// ---- R1 ---------------------------------------------------------------------
 	pf := "(*FBaseProcessorFunction)."
-	for _, name := range []string{pf + "SendReply", pf + "sendError", pf + "SendError", pf + "trapError"} {
-		fn := r.Fn("C09.R1", name)
+	helperFns := map[*ssa.Function]bool{}
+	label := map[*ssa.Function]string{}
+	var r1fns []*ssa.Function
+	for _, name := range []string{pf + "SendReply", pf + "SendError"} {
+		if fn := r.Fn("C09.R1", name); fn != nil {
+			r1fns = append(r1fns, fn)
+			helperFns[fn] = true
+			label[fn] = name
+		}
+	}
+	for what, fn := range map[string]*ssa.Function{"the writer behind SendError": r.roleSendError(), "the error trap of SendReply": r.roleTrapError()} {
 		if fn == nil {
+			ctx.Unresolved("C09.R1", what, "not found among the callees of the exported reply functions")
 			continue
 		}
+		if !helperFns[fn] {
+			r1fns = append(r1fns, fn)
+			helperFns[fn] = true
+			label[fn] = pf + "(" + what + ")"
+		}
+	}
+	// write steps extracted from SendReply into helpers of the same receiver
+	if sr := r.FnOpt(pf + "SendReply"); sr != nil {
+		for _, g := range localCone(sr, 2) {
+			if !helperFns[g] && g.Signature.Recv() != nil && types.Identical(g.Signature.Recv().Type(), sr.Signature.Recv().Type()) {
+				r1fns = append(r1fns, g)
+				helperFns[g] = true
+				label[g] = ssax.Name(g)
+			}
+		}
+	}
+	sort.Slice(r1fns, func(i, j int) bool { return r1fns[i].Name() < r1fns[j].Name() })
+	for _, fn := range r1fns {
+		name := label[fn]
 		var fctx *ssa.Parameter
 		for _, p := range fn.Params {
 			if ssax.TypeNamed(p.Type(), "", "FContext") {
@@ -166,7 +212,7 @@ func C09(ctx *core.Ctx) {
 				}
 			}
 			// forwarding to the sibling helpers
-			if c.Static != nil && (c.Static.Name() == "sendError" || c.Static.Name() == "SendError" || c.Static.Name() == "trapError") && c.Static.Pkg == r.Pkg {
+			if c.Static != nil && helperFns[c.Static] && c.Static.Pkg == r.Pkg {
 				n++
 				found := false
 				for _, a := range c.Common.Args {
@@ -385,11 +431,18 @@ func C09(ctx *core.Ctx) {
 		var unitSet, unitGet, radSet, radGet int64 = -1, -2, -1, -2
 		keySet, keyGet := "", ""
 		ssax.Instrs(st, func(in ssa.Instruction) {
+			// the header is stored directly (map update) or through the context's own accessor
+			var keyV, valV ssa.Value
 			if mu, ok := in.(*ssa.MapUpdate); ok {
-				if k, isC := ConstString(mu.Key); isC {
+				keyV, valV = mu.Key, mu.Value
+			} else if ac, ok := ssax.AsCall(in); ok && ac.ShortName() == "AddRequestHeader" && len(ac.Args()) == 3 {
+				keyV, valV = ac.Args()[1], ac.Args()[2]
+			}
+			if keyV != nil {
+				if k, isC := ConstString(keyV); isC {
 					keySet = k
 				}
-				if fc, isCall := CallValue(mu.Value); isCall && fc.FullName() == "strconv.FormatInt" {
+				if fc, isCall := CallValue(valV); isCall && fc.FullName() == "strconv.FormatInt" {
 					radSet, _ = ssax.ConstInt(fc.Common.Args[1])
 					// the encoded value is d/unit, possibly selected against clamping constants (φ)
 					seen := map[ssa.Value]bool{}
@@ -420,6 +473,11 @@ func C09(ctx *core.Ctx) {
 		ssax.Instrs(gt, func(in ssa.Instruction) {
 			if lk, ok := in.(*ssa.Lookup); ok {
 				if k, isC := ConstString(lk.Index); isC {
+					keyGet = k
+				}
+			}
+			if ac, ok := ssax.AsCall(in); ok && ac.ShortName() == "RequestHeader" && len(ac.Args()) == 2 {
+				if k, isC := ConstString(ac.Args()[1]); isC {
 					keyGet = k
 				}
 			}
